@@ -46,8 +46,11 @@ def gen(ctx):
         k = rng.random()
         if k < 0.5:
             pairs.append((random_sig(rng, 'abc', 3), random_sig(rng, 'def', 3)))
-        elif k < 0.8:
+        elif k < 0.74:
             pairs.append((random_sig(rng, 'abcd', 3), random_sig(rng, 'cdef', 3)))
+        elif k < 0.8:
+            # names of more than one letter, some spelled with the letters of the others
+            pairs.append((random_sig(rng, ['a', 'ab', 'self'], 3), random_sig(rng, ['b', 'ba', 's', 'e'], 3)))
         else:
             pairs.append((rng.choice(U3), rng.choice(U3)))
     # an ordinary inner parameter spelled like a star parameter of the outer signature (the
